@@ -142,6 +142,7 @@ func init() {
 		}
 		panic("verifSignbit")
 	}
+	verifIntrinsics["verifDeepDigest"] = func(in *Interp, fr *frame, a []Value) Value { return "" }
 	verifIntrinsics["verifSteps"] = func(in *Interp, _ *frame, a []Value) Value { return int64(in.steps) }
 	verifIntrinsics["verifSymbolic"] = func(in *Interp, _ *frame, a []Value) Value { return true }
 
